@@ -1,10 +1,20 @@
-import BeyondVerif.Lemmas.HeapCopy
+import BeyondVerif.Lemmas.HeapSep
 /-!
 # C15 — state vectors have value semantics and change atomically
 
 Theorems about the heap model `Model/Heap.lean` (tied to /repo by the exact correspondence run and by
 the name tables regenerated into `Generated/FormTables.lean` on every run).
 -/
+namespace BeyondVerif.C15Ex
+open BeyondVerif.Heap
+/-- a state vector (cell 6) with one maneuver (cell 1, in the list 2) and a nested metadata container -/
+def h0 : Heap :=
+  [ .buf (.init 0), .man 0, .list [.addr 1], .list [.tok 1], .dict [("k", .addr 3)],
+    .dict [("maneuvers", .addr 2), ("nested", .addr 4), ("date", .tok 100), ("form", .form "cartesian"),
+           ("frame", .frame (.reg "EME2000" 0))],
+    .sv false 0 5 ]
+end BeyondVerif.C15Ex
+
 namespace BeyondVerif.C15
 open BeyondVerif.Heap BeyondVerif.Generated FormTables
 
@@ -330,5 +340,326 @@ theorem pickle_separate (h h1 : Heap) (a n : Nat) (hr : pickle h a = (h1, .ok n)
       exact ⟨hd.2 m rfl, hd.1.closed⟩
     · simp at hr
   · simp at hr
+
+
+/-! ## full-depth separation -/
+
+/-- `b` is reachable from `a` by following stored addresses -/
+inductive Reach (h : Heap) : Nat → Nat → Prop
+  | refl (a : Nat) : Reach h a a
+  | step {a b x : Nat} {c : Cell} : Reach h a b → h[b]? = some c → x ∈ refsOf c → Reach h a x
+
+/- History: until /repo commit 27f7ad7 only `copy_separate_depth1` held (nested metadata containers stayed shared,
+   counter-witness `copy_shares_maneuver_objects_and_nested_containers`); the maneuver objects are still shared (open
+   finding, deliberately), which is why they appear as the one exception below. -/
+/-- clause "a copy shares no mutable data with the original", at full depth: in a well-formed heap (no dangling
+address; every `maneuvers` entry a list of maneuver objects), after `c = sv.copy()` the old heap is intact, `c`
+is a new cell, and every address stored in *any* cell the copy created is itself new or is a maneuver object -/
+theorem copy_separate (h h1 : Heap) (a n : Nat) (wf : WfM h) (hr : copySV h a = (h1, .ok n)) :
+    Sep h h1 ∧ h.length ≤ n := by
+  have ha : a < h.length := by
+    unfold copySV copySVWith at hr
+    split at hr
+    · simp at hr
+    · rename_i s hs
+      exact (List.getElem?_eq_some_iff.mp (getSV_cells h a s hs).1).1
+  have hs := copySVWith_sep wf (copyRef_sep wf copyFuel) h (Sep.refl h) a ha
+  unfold copySV at hr
+  rw [hr] at hs
+  obtain ⟨_, _, _, _, _, hl, hn, _⟩ := copySVWith_spec (copyRef_ok copyFuel) h h1 a n hr
+  exact ⟨hs, by omega⟩
+
+/-- everything reachable from a new cell of a separated heap is new or a maneuver object -/
+theorem reach_good {h0 h1 : Heap} (sep : Sep h0 h1) {n x : Nat} (hn : h0.length ≤ n) (hr : Reach h1 n x) : Good h0 x := by
+  induction hr with
+  | refl => exact Good.new hn
+  | step hab hc hx ih =>
+    rename_i b x c
+    rcases ih with hnew | ⟨t, ht⟩
+    · exact sep.closed b c hnew hc x hx
+    · have hlt : b < h0.length := (List.getElem?_eq_some_iff.mp ht).1
+      rw [sep.pres.2 b hlt, ht] at hc
+      simp at hc; subst hc
+      simp [refsOf] at hx
+
+/-- everything reachable from an old cell is old -/
+theorem reach_old {h0 h1 : Heap} (wf : WfM h0) (p : Pres h0 h1) {a x : Nat} (ha : a < h0.length) (hr : Reach h1 a x) :
+    x < h0.length := by
+  induction hr with
+  | refl => exact ha
+  | step hab hc hx ih =>
+    rename_i b x c
+    rw [p.2 b ih] at hc
+    exact wf.closed b c hc x hx
+
+/-- the clause in terms of reachability: after `c = sv.copy()`, a cell reachable both from the copy and from the
+receiver is a maneuver object — nothing else (no buffer, dict, list, array, covariance, propagator, private
+state) is shared, at any depth -/
+theorem copy_shares_only_maneuver_objects (h h1 : Heap) (a n x : Nat) (wf : WfM h) (hr : copySV h a = (h1, .ok n))
+    (ha : a < h.length) (hx1 : Reach h1 n x) (hx2 : Reach h1 a x) : ∃ t, h[x]? = some (.man t) := by
+  obtain ⟨sep, hn⟩ := copy_separate h h1 a n wf hr
+  have hold := reach_old wf sep.pres ha hx2
+  rcases reach_good sep hn hx1 with hnew | hman
+  · omega
+  · exact hman
+
+/-- the hypotheses of `copy_separate` are satisfiable: the example heap is well-formed and its copy succeeds -/
+theorem example_heap_wf : WfM C15Ex.h0 := by
+  constructor
+  · intro a c hc x hx
+    have ha : a < 7 := (List.getElem?_eq_some_iff.mp hc).1
+    have hcases : a = 0 ∨ a = 1 ∨ a = 2 ∨ a = 3 ∨ a = 4 ∨ a = 5 ∨ a = 6 := by omega
+    rcases hcases with rfl | rfl | rfl | rfl | rfl | rfl | rfl <;>
+      (simp [C15Ex.h0] at hc; subst hc; simp [refsOf] at hx; try (simp [C15Ex.h0]; omega))
+  · intro d items l hd hm
+    have ha : d < 7 := (List.getElem?_eq_some_iff.mp hd).1
+    have hcases : d = 0 ∨ d = 1 ∨ d = 2 ∨ d = 3 ∨ d = 4 ∨ d = 5 ∨ d = 6 := by omega
+    rcases hcases with rfl | rfl | rfl | rfl | rfl | rfl | rfl <;> simp [C15Ex.h0] at hd
+    · subst hd; simp at hm
+    · subst hd
+      simp at hm
+      subst hm
+      exact ⟨[.addr 1], by simp [C15Ex.h0], fun x hx => by simp at hx; subst hx; exact ⟨0, by simp [C15Ex.h0]⟩⟩
+
+example : (copySV C15Ex.h0 6).2 = .ok 12 := by decide +kernel
+
+/-- `as_orbit`: every address stored in a cell it created is new, a maneuver object, or the propagator it was given -/
+theorem asOrbit_separate (h h1 : Heap) (a p n : Nat) (wf : WfM h) (hr : asOrbit h a p = (h1, .ok n)) :
+    Pres h h1 ∧ h.length ≤ n ∧ ClosedP (fun x => Good h x ∨ x = p) h h1 := by
+  have hp := asOrbit_receiver_unchanged h a p
+  rw [hr] at hp
+  unfold asOrbit at hr
+  split at hr
+  · simp at hr
+  · rename_i s hs
+    split at hr
+    · simp at hr
+    · rename_i hc c he
+      obtain ⟨sep, hcn⟩ := copy_separate h hc a c wf he
+      split at hr
+      · simp at hr
+      · rename_i sc hsc
+        simp [alloc] at hr
+        obtain ⟨_, _, hdcell⟩ := getSV_cells hc c sc hsc
+        obtain ⟨_, hdd, _⟩ := copySVWith_getSV (copyRef_ok _) h hc a c sc he hsc
+        have hgood : ∀ x ∈ refsOf (.dict sc.items), Good h x := sep.closed sc.data _ hdd hdcell
+        have q0 : ClosedP (fun x => Good h x ∨ x = p) h hc := fun a' c' ha' hc' x hx => Or.inl (sep.closed a' c' ha' hc' x hx)
+        have hlen : h.length ≤ hc.length := sep.pres.1
+        have q1 := q0.alloc (.buf s.val) (by simp [refsOf])
+        have q2 := q1.alloc (.dict (insert "propagator" (.addr p) sc.items)) (by
+          intro x hx
+          rcases refs_insert hx with h1' | h1'
+          · right; injection h1' with h1'; exact h1'.symm
+          · left; exact hgood x h1')
+        have q3 := q2.alloc (.sv true hc.length (hc.length + 1)) (by
+          intro x hx
+          simp [refsOf] at hx
+          rcases hx with rfl | rfl
+          · left; exact Good.new hlen
+          · left; exact Good.new (by omega))
+        refine ⟨hp, by omega, ?_⟩
+        rw [← hr.1]
+        simpa [alloc] using q3
+
+/-- `as_statevector`: every address stored in a cell it created is new or a maneuver object -/
+theorem asSV_separate (h h1 : Heap) (a n : Nat) (wf : WfM h) (hr : asSV h a = (h1, .ok n)) :
+    Sep h h1 ∧ h.length ≤ n := by
+  unfold asSV at hr
+  split at hr
+  · simp at hr
+  · rename_i s hs
+    split at hr
+    · simp at hr
+    · split at hr
+      · simp at hr
+      · rename_i hc c he
+        obtain ⟨sep, hcn⟩ := copy_separate h hc a c wf he
+        split at hr
+        · simp at hr
+        · rename_i sc hsc
+          simp [alloc] at hr
+          obtain ⟨_, _, hdcell⟩ := getSV_cells hc c sc hsc
+          obtain ⟨_, hdd, _⟩ := copySVWith_getSV (copyRef_ok _) h hc a c sc he hsc
+          have hgood : ∀ x ∈ refsOf (.dict sc.items), Good h x := sep.closed sc.data _ hdd hdcell
+          have hlen : h.length ≤ hc.length := sep.pres.1
+          have q1 := sep.al (.buf s.val) (by simp [refsOf])
+          have q2 := q1.al (.dict (erase "propagator" sc.items)) (fun x hx => hgood x (refs_erase hx))
+          have q3 := q2.al (.sv false hc.length (hc.length + 1)) (by
+            intro x hx
+            simp [refsOf] at hx
+            rcases hx with rfl | rfl
+            · exact Good.new hlen
+            · exact Good.new (by omega))
+          refine ⟨?_, by omega⟩
+          rw [← hr.1]
+          simpa [alloc] using q3
+
+
+/-! ## StateVector → Orbit → StateVector preserves values and metadata -/
+
+theorem lookup_erase_ne (k k' : String) (items : Items) (hne : k' ≠ k) : lookup k' (erase k items) = lookup k' items := by
+  induction items with
+  | nil => simp [erase]
+  | cons kv rest ih =>
+    obtain ⟨k2, v2⟩ := kv
+    by_cases h : k2 = k
+    · subst h; simp [erase, lookup, Ne.symm hne]
+    · by_cases h2 : k2 = k'
+      · subst h2; simp [erase, lookup, h]
+      · simp [erase, lookup, h, h2, ih]
+
+/-- an immutable value (anything but an address) is handed over as it is -/
+theorem copyRef_nonaddr (fuel : Nat) (h : Heap) (k : String) (r : Ref) (hr : ∀ a, r ≠ .addr a) :
+    copyRef (fuel + 1) h k r = (h, .ok r) := by
+  unfold copyRef
+  have hc : isContainer h r = false := by
+    unfold isContainer
+    split
+    · rename_i a; exact absurd rfl (hr a)
+    · rfl
+  simp [hc]
+  try (split
+       · rename_i a; exact absurd rfl (hr a)
+       · rfl)
+
+theorem copyItems_lookup (fuel : Nat) (items items' : Items) (h h' : Heap)
+    (hc : copyItems (copyRef (fuel + 1)) h items = (h', .ok items')) (key : String) :
+    (lookup key items = none → lookup key items' = none) ∧
+    (∀ r, (∀ a, r ≠ .addr a) → lookup key items = some r → lookup key items' = some r) := by
+  induction items generalizing h h' items' with
+  | nil => simp [copyItems] at hc; rw [hc.2]; simp [lookup]
+  | cons kv rest ih =>
+    obtain ⟨k0, v⟩ := kv
+    unfold copyItems at hc
+    split at hc
+    · simp at hc
+    · rename_i h1 v' he
+      split at hc
+      · simp at hc
+      · rename_i h2 rest' he2
+        simp at hc
+        rw [← hc.2]
+        have ihr := ih rest' h1 h2 he2
+        by_cases hk : k0 = key
+        · subst hk
+          simp [lookup]
+          intro r hr hv
+          subst hv
+          rw [copyRef_nonaddr fuel h k0 v hr] at he
+          simp at he; exact he.2.symm
+        · simp [lookup, hk]; exact ihr
+
+theorem getSV_of_cells (h : Heap) (a b d : Nat) (o : Bool) (v : Val) (items : Items) (s : SV)
+    (hc : h[a]? = some (.sv o b d)) (hb : h[b]? = some (.buf v)) (hd : h[d]? = some (.dict items))
+    (hg : getSV h a = some s) :
+    s.val = v ∧ s.items = items ∧ s.orbit = o ∧ formOf items = some s.form ∧ frameOf items = some s.frame := by
+  unfold getSV at hg
+  rw [hc] at hg
+  simp only [hb, hd] at hg
+  split at hg
+  · rename_i f fr hf hfr
+    simp at hg; subst hg; exact ⟨rfl, rfl, rfl, hf, hfr⟩
+  · simp at hg
+
+theorem getSV_form (h : Heap) (a : Nat) (s : SV) (hg : getSV h a = some s) :
+    formOf s.items = some s.form ∧ frameOf s.items = some s.frame := by
+  obtain ⟨hc, hb, hd⟩ := getSV_cells h a s hg
+  exact (getSV_of_cells h a s.buf s.data s.orbit s.val s.items s hc hb hd hg).2.2.2
+
+/-- what `as_orbit` / `as_statevector` build: coordinates of the receiver, `_data` of a copy of the receiver with the
+`propagator` entry set / removed -/
+theorem asOrbit_result (h h1 : Heap) (a p n : Nat) (s sn : SV) (hs : getSV h a = some s)
+    (hr : asOrbit h a p = (h1, .ok n)) (hn : getSV h1 n = some sn) :
+    sn.val = s.val ∧ sn.orbit = true ∧
+    ∃ hc items', copyItems (copyRef copyFuel) h s.items = (hc, .ok items') ∧ sn.items = insert "propagator" (.addr p) items' := by
+  unfold asOrbit at hr
+  rw [hs] at hr
+  simp only at hr
+  split at hr
+  · simp at hr
+  · rename_i hc c he
+    split at hr
+    · simp at hr
+    · rename_i sc hsc
+      obtain ⟨_, _, _, _, s0, items', h0, hs0, hci, _, hi, _⟩ := copySVWith_getSV (copyRef_ok _) h hc a c sc he hsc
+      rw [hs] at hs0; simp at hs0; subst hs0
+      simp [alloc] at hr
+      obtain ⟨hh, hnn⟩ := hr
+      subst hnn
+      have c1 : h1[hc.length + 2]? = some (.sv true hc.length (hc.length + 1)) := by rw [← hh]; simp
+      have c2 : h1[hc.length]? = some (.buf s.val) := by rw [← hh]; simp
+      have c3 : h1[hc.length + 1]? = some (.dict (insert "propagator" (.addr p) sc.items)) := by rw [← hh]; simp
+      obtain ⟨hv, hit, ho, _⟩ := getSV_of_cells h1 _ _ _ _ _ _ sn c1 c2 c3 hn
+      exact ⟨hv, ho, h0, items', hci, by rw [hit, hi]⟩
+
+theorem asSV_result (h h1 : Heap) (a n : Nat) (s sn : SV) (hs : getSV h a = some s)
+    (hr : asSV h a = (h1, .ok n)) (hn : getSV h1 n = some sn) :
+    sn.val = s.val ∧ sn.orbit = false ∧
+    ∃ hc items', copyItems (copyRef copyFuel) h s.items = (hc, .ok items') ∧ sn.items = erase "propagator" items' := by
+  unfold asSV at hr
+  rw [hs] at hr
+  simp only at hr
+  split at hr
+  · simp at hr
+  · split at hr
+    · simp at hr
+    · rename_i hc c he
+      split at hr
+      · simp at hr
+      · rename_i sc hsc
+        obtain ⟨_, _, _, _, s0, items', h0, hs0, hci, _, hi, _⟩ := copySVWith_getSV (copyRef_ok _) h hc a c sc he hsc
+        rw [hs] at hs0; simp at hs0; subst hs0
+        simp [alloc] at hr
+        obtain ⟨hh, hnn⟩ := hr
+        subst hnn
+        have c1 : h1[hc.length + 2]? = some (.sv false hc.length (hc.length + 1)) := by rw [← hh]; simp
+        have c2 : h1[hc.length]? = some (.buf s.val) := by rw [← hh]; simp
+        have c3 : h1[hc.length + 1]? = some (.dict (erase "propagator" sc.items)) := by rw [← hh]; simp
+        obtain ⟨hv, hit, ho, _⟩ := getSV_of_cells h1 _ _ _ _ _ _ sn c1 c2 c3 hn
+        exact ⟨hv, ho, h0, items', hci, by rw [hit, hi]⟩
+
+/- History: before /repo commit 27f7ad7 `as_orbit` / `as_statevector` handed the receiver's `_data` values over as they
+   were, so the statement was "exactly the same `_data` entries" (and `asOrbit_same_references`, the theorem behind the
+   sharing finding). Now both go through `copy()`: mutable values come back as copies (their content is compared by
+   the correspondence run), immutable ones as they are. -/
+/-- clause "converting between StateVector and Orbit preserves values and metadata": the StateVector that comes back
+from StateVector → Orbit → StateVector has the receiver's coordinates, form and frame, is not an Orbit, and every
+immutable `_data` entry (date, strings, numbers, form, frame …) is found under its key unchanged -/
+theorem as_orbit_as_statevector_id (h h1 h2 : Heap) (a p n m : Nat) (s s2 : SV) (hs : getSV h a = some s)
+    (h1r : asOrbit h a p = (h1, .ok n)) (h2r : asSV h1 n = (h2, .ok m)) (hs2 : getSV h2 m = some s2) :
+    s2.val = s.val ∧ s2.orbit = false ∧ s2.form = s.form ∧ s2.frame = s.frame ∧
+    ∀ key r, key ≠ "propagator" → (∀ x, r ≠ .addr x) → lookup key s.items = some r → lookup key s2.items = some r := by
+  -- the intermediate Orbit exists because `asSV` succeeded on it
+  have hsn : ∃ sn, getSV h1 n = some sn := by
+    unfold asSV at h2r
+    split at h2r
+    · simp at h2r
+    · rename_i sn hsn; exact ⟨sn, hsn⟩
+  obtain ⟨sn, hsn⟩ := hsn
+  obtain ⟨hv1, _, hc1, it1, hci1, hit1⟩ := asOrbit_result h h1 a p n s sn hs h1r hsn
+  obtain ⟨hv2, ho2, hc2, it2, hci2, hit2⟩ := asSV_result h1 h2 n m sn s2 hsn h2r hs2
+  have hkey : ∀ key r, key ≠ "propagator" → (∀ x, r ≠ .addr x) → lookup key s.items = some r → lookup key s2.items = some r := by
+    intro key r hk hr hl
+    have l1 := (copyItems_lookup _ s.items it1 h hc1 hci1 key).2 r hr hl
+    have l2 : lookup key sn.items = some r := by rw [hit1, lookup_insert_ne _ _ _ _ hk]; exact l1
+    have l3 := (copyItems_lookup _ sn.items it2 h1 hc2 hci2 key).2 r hr l2
+    rw [hit2, lookup_erase_ne _ _ _ hk]; exact l3
+  have hf := getSV_form h a s hs
+  have hf2 := getSV_form h2 m s2 hs2
+  refine ⟨by rw [hv2, hv1], ho2, ?_, ?_, hkey⟩
+  · have hl : lookup "form" s.items = some (.form s.form) := by
+      have := hf.1; unfold formOf at this
+      split at this
+      · rename_i f hl; simp at this; subst this; exact hl
+      · simp at this
+    have hl2 := hkey "form" _ (by decide) (by intro x; simp) hl
+    have := hf2.1; unfold formOf at this; rw [hl2] at this; simp at this; exact this.symm
+  · have hl : lookup "frame" s.items = some (.frame s.frame) := by
+      have := hf.2; unfold frameOf at this
+      split at this
+      · rename_i f hl; simp at this; subst this; exact hl
+      · simp at this
+    have hl2 := hkey "frame" _ (by decide) (by intro x; simp) hl
+    have := hf2.2; unfold frameOf at this; rw [hl2] at this; simp at this; exact this.symm
 
 end BeyondVerif.C15
